@@ -38,7 +38,11 @@ RULE = ('molecules: exhaustive C/O (N for Benson/PPY) skeletons up to 3 '
         'closed pattern table. '
         ' '
         'Rounds 17-19: one scheme object decomposing texts and molecule'
-        ' objects for four threads at once.')
+        ' objects for four threads at once.'
+        ' '
+        'Round 20: synthetic correction descriptors with ring statements'
+        ' that acyclic molecules satisfy (in =0 / <2 / <=1 / >=0 ring,'
+        ' negations, nonring bonds and atoms).')
 ASSUMPTIONS = [
     'RDKit parsing, kekulisation, ring perception and stereo perception are '
     'input; molecules above the 10000-embedding cap are excluded',
